@@ -7,6 +7,7 @@
   value in the current source is `Gen.C01.onePlusAlpha` (`c01_for_current_source`).
 -/
 import SkyllhModel.Model.LLH
+import SkyllhModel.Model.LLHR7
 import SkyllhModel.Generated.C01
 import SkyllhModel.Proofs.RealScalar
 import Mathlib.Analysis.SpecialFunctions.Log.Deriv
@@ -656,3 +657,143 @@ example : (RExpr.prod (.leaf [2, 3]) (.leaf [1]) : RExpr ℝ).eval = none := by
 example : (fieldRun none [[5 / 2, 5 / 2], [5 / 2, 5], [5, 5], [5, 5]] : List (Option (List ℝ) × Bool)).map (·.2)
     = [true, true, true, false] := by
   norm_num [fieldRun, fieldStep]
+
+/-! ### Round 7: the array-level code (masks, uninitialised buffer, gather / scatter), the forced
+coefficient of the continuation, structure read from the source -/
+
+namespace C01
+
+/-- gather / compute / scatter over the mask `as.map p` = the event-wise choice -/
+theorem scatter_gather (p : ℝ → Bool) (g : ℝ → ℝ) (as : List ℝ) :
+    scatterU (as.map p) (pass1 (as.map p) as) ((gatherU (as.map p) as).map g)
+      = as.map (fun a => some (if p a then Transc.log1p a else g a)) := by
+  induction as with
+  | nil => simp [scatterU, pass1, gatherU]
+  | cons a as ih =>
+    cases h : p a <;> simp [scatterU, pass1, gatherU, h, ih]
+
+theorem pass1_all_stable (p : ℝ → Bool) (g : ℝ → ℝ) (as : List ℝ)
+    (h : (as.map p).any (fun s => !s) = false) :
+    pass1 (as.map p) as = as.map (fun a => some (if p a then Transc.log1p a else g a)) := by
+  induction as with
+  | nil => simp [pass1]
+  | cons a as ih =>
+    simp only [List.map_cons, List.any_cons, Bool.or_eq_false_iff] at h
+    have hp : p a = true := by simpa using h.1
+    simp [pass1, hp, ih h.2]
+
+theorem sumOptFrom_some (h : ℝ → ℝ) (as : List ℝ) (acc : ℝ) :
+    sumOptFrom (some acc) (as.map (fun a => some (h a))) = some (acc + (as.map h).sum) := by
+  induction as generalizing acc with
+  | nil => simp [sumOptFrom]
+  | cons a as ih => simp [sumOptFrom, ih, add_assoc]
+
+theorem stable_choice (strict : Bool) (opa a : ℝ) :
+    (if stableMask strict opa a then Transc.log1p a else taylorBranchC opa (0.5 : ℝ) a) = lamOfAlpha opa a := by
+  have hT : taylorBranchC opa (0.5 : ℝ) a = taylorBranch opa a := rfl
+  cases strict
+  · simp only [stableMask, Bool.false_eq_true, if_false, decide_eq_true_eq, hT, lamOfAlpha]
+    rcases lt_trichotomy (opa - 1) a with h | h | h
+    · simp [h, le_of_lt h]
+    · subst h
+      simp only [le_refl, if_true, lt_irrefl, if_false]
+      rw [c01_taylor_value_continuous]; rfl
+    · simp [not_le.mpr h, not_lt.mpr (le_of_lt h)]
+  · simp [stableMask, hT, lamOfAlpha]
+
+end C01
+
+/-- **The array-level code is the event-wise formula.**  Masked `log1p(where=)` into an uninitialised
+buffer, gather of the unstable events into a compacted array, continuation, scatter back and `np.sum`:
+no slot of the buffer is read uninitialised (`some`), and the value is `llr` of `Model/LLH.lean` (hence the
+documented formula, `c01_eq_documented_formula`) — for either comparison operator of the stability mask. -/
+theorem c01_masked_arrays_refine (strict : Bool) (opa ns : ℝ) (N : ℕ) (Xi : List ℝ) :
+    calcLogLambda strict opa (0.5 : ℝ) N ns Xi = some (llr opa N ns Xi) := by
+  have hbuf : logLambdaBuffer strict opa (0.5 : ℝ) ns Xi
+      = (Xi.map (ns * ·)).map (fun a => some (lamOfAlpha opa a)) := by
+    unfold logLambdaBuffer
+    simp only
+    split_ifs with h
+    · rw [scatter_gather]; simp only [stable_choice]
+    · rw [pass1_all_stable (stableMask strict opa) (taylorBranchC opa (0.5 : ℝ)) _ (by simpa using h)]
+      simp only [stable_choice]
+  unfold calcLogLambda sumOpt
+  rw [hbuf, sumOptFrom_some]
+  have e : (fun x => lamOfAlpha opa (ns * x)) = logLambdaI opa ns := rfl
+  simp [llr, sumF_eq_sum, List.map_map, Function.comp_def, e]
+
+/-- `>` ↔ `>=` in the stability mask does not change the value (the junction is continuous). -/
+theorem c01_mask_operator_irrelevant (opa ns : ℝ) (N : ℕ) (Xi : List ℝ) :
+    calcLogLambda true opa (0.5 : ℝ) N ns Xi = calcLogLambda false opa (0.5 : ℝ) N ns Xi := by
+  rw [c01_masked_arrays_refine, c01_masked_arrays_refine]
+
+/-- every slot of the `np.empty_like` buffer is written before `np.sum` reads it -/
+theorem c01_buffer_fully_written (strict : Bool) (opa c ns : ℝ) (Xi : List ℝ) :
+    (logLambdaBuffer strict opa c ns Xi).length = Xi.length ∧
+    ∀ o ∈ logLambdaBuffer strict opa c ns Xi, o ≠ none := by
+  have hbuf : logLambdaBuffer strict opa c ns Xi
+      = (Xi.map (ns * ·)).map (fun a => some (if stableMask strict opa a then Transc.log1p a else taylorBranchC opa c a)) := by
+    unfold logLambdaBuffer
+    simp only
+    split_ifs with h
+    · rw [C01.scatter_gather]
+    · rw [C01.pass1_all_stable (stableMask strict opa) (taylorBranchC opa c) _ (by simpa using h)]
+  rw [hbuf]
+  constructor
+  · simp
+  · intro o ho
+    simp only [List.mem_map] at ho
+    obtain ⟨a, _, rfl⟩ := ho
+    simp
+
+/-- **The coefficient ½ is forced.**  With a coefficient `c` of the quadratic term the continuation has
+slope `(1 - 2c·α̃)/opa` (equal to the stable slope `1/opa` at the threshold for every `c`) and constant
+second derivative `-2c/opa²`; it agrees with the second derivative `-1/opa²` of `log(1+a)` at the
+threshold iff `c = 1/2`. -/
+theorem c01_taylor_coeff_unique (opa c : ℝ) (h0 : 0 < opa) :
+    (∀ a : ℝ, HasDerivAt (taylorBranchC opa c) ((1 - 2 * c * tildeAlpha opa a) / opa) a) ∧
+    (∀ a : ℝ, HasDerivAt (fun a : ℝ => (1 - 2 * c * tildeAlpha opa a) / opa) (-(2 * c) / opa ^ 2) a) ∧
+    (-(2 * c) / opa ^ 2 = -(1 / opa ^ 2) ↔ c = 1 / 2) := by
+  refine ⟨fun a => ?_, fun a => ?_, ?_⟩
+  · have ht := tildeAlpha_hasDerivAt opa a
+    have h : HasDerivAt (fun x => Transc.log1p (opa - 1) + tildeAlpha opa x
+        - c * (tildeAlpha opa x * tildeAlpha opa x))
+        (1 / opa - c * (1 / opa * tildeAlpha opa a + tildeAlpha opa a * (1 / opa))) a :=
+      (ht.const_add (Transc.log1p (opa - 1))).sub ((ht.mul ht).const_mul c)
+    have hf : taylorBranchC opa c = fun x => Transc.log1p (opa - 1) + tildeAlpha opa x
+        - c * (tildeAlpha opa x * tildeAlpha opa x) := by
+      funext x; rfl
+    rw [hf]
+    refine h.congr_deriv ?_
+    ring
+  · have h : HasDerivAt (fun a : ℝ => (1 - 2 * c * tildeAlpha opa a) / opa) (-(2 * c * (1 / opa)) / opa) a :=
+      (((tildeAlpha_hasDerivAt opa a).const_mul (2 * c)).const_sub (1 : ℝ)).div_const opa
+    refine h.congr_deriv ?_
+    ring
+  · have hne : opa ^ 2 ≠ 0 := pow_ne_zero 2 (ne_of_gt h0)
+    constructor
+    · intro h
+      field_simp at h
+      linarith
+    · intro h; subst h; field_simp
+
+/-- The structure read from the current source: coefficient ½ and exponent 2 of the continuation's
+quadratic term, the strict `bkg_pd > 0` mask of `SigOverBkgPDFRatio` (with `>=` a zero background density
+would be divided by), the keyword interface of `evaluate`, and `initialize_trial(n_events=None)`. -/
+theorem c01_structure_for_current_source :
+    (Gen.C01.taylorCoeff : ℝ) = 1 / 2 ∧ Gen.C01.taylorPower = 2 ∧ Gen.C01.sobStrict = true ∧
+    Gen.C01.evalParams = ["fitparam_values", "src_params_recarray", "tl"] ∧
+    Gen.C01.nEventsDefaultNone = true := by
+  refine ⟨by unfold Gen.C01.taylorCoeff; norm_num, by decide, by decide, by decide, by decide⟩
+
+/-- … hence the array-level code with the constants of the current source is the documented formula. -/
+theorem c01_masked_arrays_for_current_source (ns : ℝ) (N : ℕ) (Rs : List ℝ) :
+    calcLogLambda Gen.C01.stableStrict (Gen.C01.onePlusAlpha : ℝ) (Gen.C01.taylorCoeff : ℝ) N ns (Rs.map (xOfRatio N))
+      = some (docLogLambda Gen.C01.onePlusAlpha N ns Rs) := by
+  have hc : (Gen.C01.taylorCoeff : ℝ) = (0.5 : ℝ) := by unfold Gen.C01.taylorCoeff; norm_num
+  rw [hc, c01_masked_arrays_refine, ← c01_eq_documented_formula]; rfl
+
+-- non-vacuity: one stable and one Taylor event, buffer written by both passes
+example : logLambdaBuffer true (1/2 : ℝ) (1/2) 1 [3, -2]
+    = [some (Transc.log1p 3), some (taylorBranchC (1/2) (1/2) (-2))] := by
+  norm_num [logLambdaBuffer, stableMask, pass1, gatherU, scatterU]
